@@ -940,9 +940,40 @@ def run(ctx: Context, rep) -> None:
         "created resources and the FlatBuffers builder: no scratch state on "
         "self carries values from one example into the next")
     check_writer_state(ctx, rep, "C01.state")
+    # the tf.data interface of fb / npz datasets declares each attribute
+    # with the dataset's own dtype and shape: from_generator casts to the
+    # declared signature without a range check (uint64 declared as int64
+    # wraps 2**63.. to negative numbers)
+    rep.rule(
+        "C01.tf-signature",
+        "every tf.TensorSpec built in the iteration module has "
+        "dtype=<attribute>.dtype and shape=<attribute>.shape of the same "
+        "attribute declaration (locals and expression helpers expanded)")
+    from sa import norm as _n1
+    n_ts = 0
+    itmod = ctx.repo.module("sedpack.io.dataset_iteration")
+    for f_ in itmod.functions.values():
+        if isinstance(f_.node, ast.Lambda):
+            continue
+        for c_ in f_.calls():
+            if not (dotted(c_.func) or "").endswith("TensorSpec"):
+                continue
+            n_ts += 1
+            dt = Context.arg(c_, 1, "dtype")
+            sh = Context.arg(c_, 0, "shape")
+            dt_s = _n1.canon(f_, dt) if dt is not None else ""
+            sh_s = _n1.canon(f_, sh) if sh is not None else ""
+            ok_ts = dt_s.endswith(".dtype") and sh_s.endswith(".shape") and \
+                dt_s[:-len(".dtype")] == sh_s[:-len(".shape")]
+            rep.ob("C01.tf-signature", ok_ts, loc=f_.loc(c_),
+                   where=f_.qualname, construct=short(c_, 80),
+                   message="the declared tensor type must be the attribute's "
+                   "own dtype and shape")
+    rep.floor("C01.tf-signature", n_ts, 1, "TensorSpec constructions")
     # nothing read from the dataset's files / the environment is memoised
     from sa.rules import shared as _shm
     _shm.check_no_memo(ctx, rep, "C01.memo")
+    _shm.check_no_shared_class_state(ctx, rep, "C01.class-state")
 
 _FBW = "src/sedpack/io/shard/shard_writer_flatbuffer.py"
 _FBR = "src/sedpack/io/flatbuffer/iterate.py"
